@@ -5,7 +5,7 @@ MC_ACTIONS = ["Ok", "Obs", "Rej"]
 
 def run(ctx):
     # MC: the whole machine for MaxLen = 4 (every register state x action x argument)
-    gen, dist, acts = ctx.tlc_mc("MC_BitSeq", "MC_BitSeq.cfg", workers=8)
+    gen, dist, acts = ctx.tlc_mc("MC_BitSeq", "MC_BitSeq.cfg", workers=8, coverage=True)
     # A: one implementation test per TLC transition of the boundary family at MaxLen = 64
     cfg = "Gen_BitSeq.thorough.cfg" if ctx.thorough else "Gen_BitSeq.quick.cfg"
     path, objs = ctx.tlc_gen("Gen_BitSeq", cfg, workers=4)
